@@ -469,6 +469,36 @@ def pre_validation_dereference(ctx, chk, rule, f, tr):
                     target, op = node.iter, "iteration"
                 elif isinstance(node, ast.Subscript) and isinstance(node.ctx, ast.Load):
                     target, op = node.value, "subscript"
+                # an unvalidated element used as a key / index of something else: KeyError / IndexError / TypeError before validation
+                if isinstance(node, ast.Subscript) and not isinstance(node.slice, (ast.Constant, ast.Slice)):
+                    kobjs = pt.ev(node.slice, h)
+                    kdeep = [o for o in kobjs if o[0] == "in" and o[2] >= 1]
+                    if not kdeep and isinstance(node.slice, ast.Name):
+                        src_field = _element_of_input(h, node.slice.id)      # scalars (player labels, rewards, indices) are not heap objects
+                        if src_field:
+                            kdeep = [("in", src_field, 1)]
+                    base_objs = pt.ev(node.value, h)
+                    if kdeep and not any(o[0] == "in" for o in base_objs):
+                        n += 1
+                        guarded = False
+                        q_ = node
+                        while q_ is not None:
+                            p_ = getattr(q_, "parent", None)
+                            if isinstance(p_, ast.If) and any(q_ is s_ or _contains(s_, q_) for s_ in p_.body):
+                                for c_ in ast.walk(p_.test):
+                                    if isinstance(c_, ast.Compare) and len(c_.ops) == 1 and isinstance(c_.ops[0], ast.In) and src(c_.left) == src(node.slice) \
+                                            and src(c_.comparators[0]) == src(node.value):
+                                        guarded = True
+                            if isinstance(p_, ast.Try) and any(q_ is s_ or _contains(s_, q_) for s_ in p_.body):
+                                guarded = True
+                            q_ = p_
+                        if guarded:
+                            chk.ok(rule, h.where(node), "%s: `%s` uses an unvalidated element of %s as a key under a membership test / try" % (h.short, src(node), kdeep[0][1]))
+                        else:
+                            chk.violation(rule, h.where(node), "%s is called by run_games outside the try block and uses `%s`, an unvalidated element of the game's %s, as a key of `%s`: "
+                                          "an unknown value (e.g. a player label that is not one of the three kinds) raises KeyError and crashes the batch instead of being recorded" % (
+                                              h.short, src(node.slice), kdeep[0][1], src(node.value)), expected="membership-guarded, or inside the try after validation",
+                                          found=norm_stmt(ctx.cfg(h).stmt_of(node)), construct="%s pre-validation key %s" % (h.short, src(node.slice)))
                 if target is None:
                     continue
                 objs = pt.ev(target, h)
@@ -485,6 +515,35 @@ def pre_validation_dereference(ctx, chk, rule, f, tr):
                                   construct="%s pre-validation %s" % (h.short, op))
     if n == 0:
         chk.ok(rule, f.where(), "functions called on the game outside the try (%s) never dereference elements of the game's lists" % sorted({g.short for _, g in outside}))
+
+
+def _element_of_input(h, name):
+    """Name of the game's input list of which the local `name` is an (unvalidated) element: a loop target over self.<list>,
+    also through zip() / enumerate()."""
+    fields = ("players", "rewards", "final_states", "transition_list")
+
+    def field_of(e):
+        p = attr_path(e)
+        if p and p.startswith("self.") and p.split(".", 1)[1] in fields:
+            return p.split(".", 1)[1]
+        return None
+    for n in walk_no_nested_defs(h.node):
+        tgt = it = None
+        if isinstance(n, ast.For):
+            tgt, it = n.target, n.iter
+        elif isinstance(n, ast.comprehension):
+            tgt, it = n.target, n.iter
+        if tgt is None:
+            continue
+        if isinstance(it, ast.Call) and call_name(it) == "enumerate" and it.args and isinstance(tgt, ast.Tuple) and len(tgt.elts) == 2:
+            tgt, it = tgt.elts[1], it.args[0]
+        if isinstance(tgt, ast.Name) and tgt.id == name and field_of(it):
+            return field_of(it)
+        if isinstance(it, ast.Call) and call_name(it) == "zip" and isinstance(tgt, ast.Tuple) and len(tgt.elts) == len(it.args):
+            for t_, a_ in zip(tgt.elts, it.args):
+                if isinstance(t_, ast.Name) and t_.id == name and field_of(a_):
+                    return field_of(a_)
+    return None
 
 
 def _type_guarded(node, target):
